@@ -239,41 +239,6 @@ def categorical_program(rng):
     return prog, goals
 
 
-def functional_branch_program(rng):
-    """Sin / Cos / Exp of a drawn variable (or of a constant) assigned inside branches: the condition of such an assignment
-    has to survive both representations of conditions"""
-    d = rng.choice(["Normal(0, 1)", "Uniform(0, 1)", "Uniform(-1, 1)", "Normal(1, 1/4)"])
-    fn = lambda: rng.choice(["Sin", "Cos", "Exp", "Sin", "Cos"])
-    arg = lambda: "u" if rng.random() < 0.8 else rng.choice(["1", "1/2", "2"])
-    p1, p2 = gen.fstr(rng.choice(gen.PROB_POOL)), gen.fstr(rng.choice(gen.PROB_POOL))
-    init = ["x = 0", f"s = {rng.choice([0, 1, 2])}", "c = 0", "u = 0"]
-    body = [f"c = Bernoulli({p1})", f"u = {d}"]
-    shape = rng.choice(["if", "if-else", "nested", "elif", "if"])
-    f1, f2 = fn(), fn()
-    if f1 == "Exp" or f2 == "Exp":
-        f1 = f2 = "Exp" if rng.random() < 0.5 else rng.choice(["Sin", "Cos"])     # Polar does not mix exponential and trigonometric moments
-    if shape == "if":
-        body += [f"if c == {rng.choice([0, 1])}:", f"    s = {f1}({arg()})"] + (["    x = x + 1"] if rng.random() < 0.5 else []) + ["end"]
-    elif shape == "if-else":
-        body += ["if c == 1:", f"    s = {f1}({arg()})", "else:", f"    s = {f2}({arg()})" if rng.random() < 0.5 else "    s = s/2", "end"]
-    elif shape == "elif":
-        init.append("d = 0")
-        body.insert(1, f"d = Bernoulli({p2})")
-        body += ["if c == 1:", f"    s = {f1}({arg()})", "elif d == 1:", f"    s = {f2}({arg()})", "end"]
-    else:
-        init.append("d = 0")
-        body.insert(1, f"d = Bernoulli({p2})")
-        body += ["if c == 1:", "    if d == 1:", f"        s = {f1}({arg()})", "    else:", f"        s = {f2}({arg()})" if rng.random() < 0.6 else "        x = x + 2",
-                 "    end", "end"]
-    tail = rng.choice(["x = x + s", "x = x + s", "s = s/2", "x = x + c*s", ""])
-    if tail:
-        body.append(tail)
-    rng.shuffle(init)
-    text = "\n".join(init + ["while true:"] + ["    " + l for l in body] + ["end"]) + "\n"
-    goals = ["s"] + rng.sample(["x", "s**2", "c*s", "x"], 2)
-    return text, list(dict.fromkeys(goals))
-
-
 def branchy_program(rng):
     prog = gen.gen_c05_program(rng)
     names = sorted({s[1] for s in prog["init"] if s[0] == "assign"})
@@ -308,7 +273,7 @@ def _program_choice(rng):
         text = render_program(prog, rng.choice(["frac", "frac", "minimal"]))
         return {"text": text}, goals[:1] + rng.sample(goals[1:], min(len(goals) - 1, 2)), "cat:" + hashlib.sha256(text.encode()).hexdigest()[:10], "categorical", prog
     if r < 0.74:
-        text, goals = functional_branch_program(rng)
+        text, goals = gen.functional_branch_program(rng)
         return {"text": text}, goals, "fnb:" + hashlib.sha256(text.encode()).hexdigest()[:10], "branchy", None
     if r < 0.8:
         prog, goals = modular_counter_program(rng)
